@@ -6,7 +6,7 @@ cd /repo && git apply --check "$patch" || { echo "PATCH DOES NOT APPLY"; exit 3;
 cp /verif/evidence/$pid.json /tmp/evidence_$pid.json.bak 2>/dev/null
 git apply "$patch"
 cd /verif && VERIF_SEARCH_S=${VERIF_SEARCH_S:-60} ./check $pid --tier $tier > /tmp/seed_$pid.log 2>&1; rc=$?
-git -C /repo checkout -- .
+git -C /repo apply -R "$patch" 2>/dev/null; git -C /repo checkout -- .   # -R also removes files the patch added
 cp /tmp/evidence_$pid.json.bak /verif/evidence/$pid.json 2>/dev/null
 grep -E "VIOLATION|KNOWN-FINDING|== C|FAILED" /tmp/seed_$pid.log | head -12
 echo "exit=$rc"
